@@ -113,6 +113,15 @@ theorem repo_key_shape : Facts.boltKeyShape = "be64(seq)||id" := by decide +kern
 
 end Mercure.C07
 
+namespace Mercure.C07
+/-- Obligation (regenerated fact): in /repo's `persist` the transport's last sequence and last event id are assigned
+    only after `db.Update` has returned — a write transaction that fails (and is rolled back by bbolt) leaves them
+    alone, as the model's single-step `db.Update` assumes. With the assignment inside the transaction (the tree as
+    found: F14) a refused publication moved the cut-off one past the bucket sequence and the next publication was
+    replayed *and* delivered live to a subscriber registering in between (witness: seeded/R-F14, stream [u2 u2]). -/
+theorem repo_last_seq_moves_only_on_commit : Facts.lastSeqAfterCommit = true := by decide
+end Mercure.C07
+
 #print axioms Mercure.C07.replay_after_retained_id
 #print axioms Mercure.C07.earliest_replays_everything
 #print axioms Mercure.C07.restart_keeps_history
@@ -125,3 +134,4 @@ end Mercure.C07
 #print axioms Mercure.C07.byte_level_scan_respects_the_cut
 #print axioms Mercure.C07.byte_level_last_event_id
 #print axioms Mercure.C07.repo_key_shape
+#print axioms Mercure.C07.repo_last_seq_moves_only_on_commit
